@@ -167,6 +167,26 @@ M = {
     "C19-8": ("Rule.__init__ pops its options out of the caller's dict", "Rule built twice from the same dict (rule list reused)", "each call built fresh dicts; one set of dicts / Rule objects now shared across the three calls"),
     "C20-7": ("first-run write asserts that the dumped defaults parse to a non-empty table count", "defaults with top-level keys only", ""),
     "C20-8": ("_merge takes a user table whole once it sets every key of the default table", "user table covering all default keys but only part of a nested table", ""),
+    # ---- wave 5 -------------------------------------------------------------------------------------
+    "C01-9": ("memory get_events fast path for 0 < limit < len returns the stored objects", "read with a positive limit below the bucket size, mutate the result", "(caught by the 'got_limit1' victim added the same hour, after the agent's side note on insert_one; before that only get(-1) / get_by_id results were mutated)"),
+    "C01-10": ("memory insert_one takes tail id + 1 while replace_last sorts the list in place", "events inserted out of time order, replace_last, insert", "id histories only inserted in time order; ins_old / repl_move ops added"),
+    "C02-9": ("memory insert_many deep-copies the whole batch list at once (aliases kept)", "bulk insert listing one Event object several times", ""),
+    "C02-10": ("sqlite get_event looks up by primary key only", "lookup in one bucket of an id that lives in another", "lookups were only made with own, dead and never-existed ids; foreign-id lookup added"),
+    "C03-9": ("sqlite get_events orders by endtime", "nested event (starts earlier, ends later)", ""),
+    "C03-10": ("Bucket.get_eventcount returns 0 when endtime <= starttime", "zero-width window inside an event", ""),
+    "C04-9": ("peewee replace verifies event_id but saves the row under the event's own id", "replace(own id, event read from another bucket)", "probes addressed foreign ids but replacement objects never carried one; rep_carry / repl_carry added"),
+    "C04-10": ("Datastore.__getitem__ strips whitespace from the bucket id", "two buckets whose ids differ by trailing whitespace", "bucket ids were A / B / passive; now wnd / 'wnd ' / Wnd (also C05: '1' / '1 ')"),
+    "C05-9": ("Datastore.bucket_instances is a class attribute shared by all Datastore objects", "two datastores in one process holding the same bucket id", ""),
+    "C05-10": ("memory update_bucket merges the new data dict into the old one", "update of data on a bucket that already has data", ""),
+    "C06-9": ("buffered statements counted per bucket", "writes alternating between two buckets without a read", "the second bucket only ever received one event; bulk49B2 added"),
+    "C06-10": ("delete_bucket deletes events in batches of 1000 with a commit after each full batch", "bucket with >= 1000 events, crash inside delete_bucket", "buckets held at most ~100 events; big-bucket configurations (999 / 1000 / 1001 / 2300) added"),
+    "C07-9": ("Datastore.bucket_instances is a class attribute shared by all Datastore objects", "two datastores (one per backend) holding the same bucket id", "the implementation raised (closed connection) inside a work unit and the run ended as a harness error; exceptions out of the implementation inside a unit are now violations (generic guard)"),
+    "C08-9": ("merged duration computed as last.duration + gap + hb.duration", "heartbeat with positive duration starting inside the previous event", ""),
+    "C08-10": ("merge window test became an interval-intersection test", "out-of-order heartbeat reaching into the first event", ""),
+    "C09-9": ("filter_period_intersect normalises the filter list through period_union", "touching filter events; filter inputs inspected afterwards", ""),
+    "C09-10": ("period_union keeps a stale last_event after a merge", "three events joined transitively", ""),
+    "C10-9": ("explicit pulsetime 0 falls back to the default (pulsetime or DEFAULT)", "pulsetime 0 with a gap <= 5 s", ""),
+    "C10-10": ("zero-duration events removed in place while iterating", "two adjacent zero-duration events after flooding", ""),
 }
 
 
